@@ -22,6 +22,8 @@ ASSUME = [
     "comma-list options (RouterList etc.) are outside the exploration: Tor stores them as one comma-joined value, not as repeated lines",
     "in every fifth C11 execution another controller changes an option while our bootstrap is still reading the configuration (the "
     "GETCONF answer carries the old value, the announcement the new one): the attached view must show the new one",
+    "in every fourth random C11 script a line-list option may hold one value that is the empty text (Tor answers / announces 'Log=' "
+    "rather than 'Log'): reads must return that one empty value, not the default; the user does not edit or assign such a value",
 ]
 
 
@@ -41,12 +43,17 @@ def edits_of(l, elems, maxlen, rng):
     return [x for x in out if x != l]
 
 
-def rand_script(rng, n, events, nodef=False):
+def rand_script(rng, n, events, nodef=False, ez=False):
     """a random walk over the as-is Config model (kept in step here only to produce legal stimulus: which
     announcements Tor has queued, what an in-place edit starts from); the oracle is ConfigTrace.tla"""
-    elems = ["x", "y", "z"]
+    # ez: token z of the first list option stands for the empty text; it is only ever what Tor reports as that option's
+    # single value (at attach, or announced after another controller's change), and the user neither assigns it nor edits
+    # a list that holds it (Tor would read a lone empty value in a SETCONF as "clear")
+    elems = ["x", "y"] if ez else ["x", "y", "z"]
     tor = dict(s1=rng.choice([[], ["a"], ["b"]]), s2=rng.choice([[], ["a"], ["b"]]),
                l1=[rng.choice(elems) for _ in range(rng.randint(0, 3))], l2=[rng.choice(elems) for _ in range(rng.randint(0, 2))])
+    if ez and rng.random() < 0.3:
+        tor["l1"] = ["z"]
     view = dict((k, list(v)) for k, v in tor.items())
     for k in ("l1", "l2"):
         if not view[k]:
@@ -110,7 +117,7 @@ def rand_script(rng, n, events, nodef=False):
             v = [rng.choice(elems) for _ in range(rng.randint(0, 3))]
             script.append(dict(a="Assign", o=o, v=v))
             touch(o, v)
-        elif r < 0.66 and not nodef:
+        elif r < 0.66 and not nodef and not ez:
             o = rng.choice(["l1", "l2"])
             o2 = "l2" if o == "l1" else "l1"
             v = list(view[o2])
@@ -118,7 +125,7 @@ def rand_script(rng, n, events, nodef=False):
             touch(o, v)
         elif r < 0.80:
             o = rng.choice(["l1", "l2"])
-            cands = edits_of(view[o], elems, 4, rng)
+            cands = edits_of(view[o], elems, 4, rng) if "z" not in view[o] or not ez else []
             if not cands:
                 continue
             nv = rng.choice(cands)
@@ -145,6 +152,8 @@ def rand_script(rng, n, events, nodef=False):
                     v = rng.choice([[], ["a"], ["b"]])
                 else:
                     v = [rng.choice(elems) for _ in range(rng.randint(0, 3))]
+                    if ez and o == "l1" and rng.random() < 0.4:
+                        v = ["z"]
                 if v != tor[o]:
                     chs.append((o, v))
             if not chs:
@@ -166,16 +175,18 @@ def run(pid, tier, seed):
                           expect_cex=["Config_Dev_DEmpt", "Config_Dev_DLost"] if pid == "C10" else ["Config_Dev_DDef"])
     rng = random.Random(seed)
     sims = pipeline.generate(rep, "Config_Gen", "Config_Gen_%s.cfg" % pid, 300 if tier == "quick" else 3000, 30, seed)
-    scripts = [(s, False) for s in sims]
+    scripts = [(s, False, False) for s in sims]
     for k in range(300 if tier == "quick" else 4000):
         # every fourth random script runs against a Tor whose second list option has no built-in default
         scripts.append((rand_script(rng, rng.choice([12, 25, 50]) if tier == "quick" else rng.choice([25, 60, 150]), events=(pid == "C11"),
-                                    nodef=(k % 4 == 1)), k % 4 == 1))
+                                    nodef=(k % 4 == 1), ez=(pid == "C11" and k % 4 == 3)), k % 4 == 1, pid == "C11" and k % 4 == 3))
     traces, seen = [], set()
-    for i, (s, nodef) in enumerate(scripts):
+    for i, (s, nodef, ez) in enumerate(scripts):
         pick = dict(s1=i % 3, s2=(i // 3) % 2, l1=(i // 6) % 2, l2=0, offline=(i % 4 == 3))
         if any(e["a"] == "AssignFrom" for e in s):
             pick["l1"] = 2          # both list options with the same concrete texts: a copied value keeps its tokens
+        if ez:
+            pick["ez"] = True
         if nodef:
             pick["l2"] = 1          # the second list option is one Tor has no built-in default for (TransPort)
             pick["l1"] = min(pick["l1"], 1)
